@@ -1,5 +1,6 @@
 # -*- coding: utf-8 -*-
 
+import copy
 import functools as ft
 from typing import Dict, List, Mapping, Optional, Type, TypeVar, Union, cast
 
@@ -419,7 +420,9 @@ class ASTTypeBuilder:
         name = enum_type.name
         extensions = self._collect_extensions(name, _ast.EnumTypeExtension)
 
-        values = enum_type.values[:]
+        # The extended schema gets values of its own: sharing them would let
+        # later in-place edits (schema directives) reach the source schema.
+        values = [copy.copy(ev) for ev in enum_type.values]
         value_names = set(ev.name for ev in values)
 
         for extension_node in extensions:
